@@ -15,7 +15,7 @@ ASSUMPTIONS = [
 ]
 BOUNDS = {
     "quick": "counting Bloom geometries (est,fpr)->cells/hashes: (1,.5)->2/1, (1,.3)->3/2, (2,.3)->6/2 with K = 2,3 keys; histories add/add/remove from fresh; counting cuckoo: capacity 2-3, bucket 1-2, max_swaps 1-2",
-    "thorough": "adds (3,.2)->11/3 with K = 2, (1,.05)->7/5 with K = 2; counting cuckoo up to capacity 3 x bucket 2, max_swaps 3",
+    "thorough": "adds (3,.2)->11/3 with K = 2; counting cuckoo up to capacity 3 x bucket 2, max_swaps 3",
     "outside": "more cells/hashes/keys than listed; amounts above 2^20 (C16 covers the limits)",
 }
 EXPECT_LABELS = {"quick": ["cells-follow-invariant", "total", "est>=true", "restore-exact", "absent-says-so", "absent-noop",
@@ -116,7 +116,7 @@ def jobs(tier):
     js = []
     geo = [(1, .5, 2), (1, .5, 3), (1, .3, 2), (1, .3, 3), (2, .3, 2), (2, .3, 3)]
     if tier == "thorough":
-        geo += [(3, .2, 2), (1, .05, 2)]
+        geo += [(3, .2, 2)]
     for est, fpr, K in geo:
         for op in ("add", "remove", "add-remove", "remove-absent"):
             js.append({"h": "c08.step", "cfg": {"est": est, "fpr": fpr, "K": K, "op": op}, "opts": {"cost": est * est * K * 10, "max_seconds": 1500}})
